@@ -39,7 +39,7 @@ func newRunner(cfg config, log io.Writer) (*runner, error) {
 	}
 	r := &runner{cfg: cfg, w: w, x: x, ext: externals(w), wits: xch.Witnesses(w), log: log}
 	m := &model{n: cfg.N, roles: map[string]string{}, tr: map[string]*mTracker{}, byName: map[string]string{},
-		bal: map[string]map[string]*big.Int{"ETH": {}, "TTC": {}}, info: map[string]int64{}, tags: map[string]bool{}, violSeen: map[string]bool{}, dupSeen: map[string]bool{}}
+		bal: newWrappedLedger(), info: map[string]int64{}, tags: map[string]bool{}, violSeen: map[string]bool{}, dupSeen: map[string]bool{}}
 	m.supply = addrText(xch.SupplyAddr)
 	m.roles[m.supply] = "supply"
 	m.roles[addrText(w.Users[0].Addr)] = "U1"
